@@ -597,12 +597,19 @@ def fam_reentrant(g, prefix, n_random):
         init = ["0"] if kind == "behavior" else []
         for name in sorted(ops) + ["none"]:
             for act in (["hnext", "a", "2"], ["hcomplete", "a"], "unsub", ["herror", "a", "6"], ["sub", ["ref", "a"]]):
-                for idx in ("0", "1", "2"):      # (index 2 is the terminal callback of the drive below)
+                for idx in ("0", "1", "2", "3"):      # (index 2 is the terminal callback of the drive below; 3 for a BehaviorSubject, which hands over first)
+                    if idx == "3" and kind != "behavior":
+                        continue
                     g.tag = 0
                     p = ops[name](["ref", "a"]) if name != "none" else ["ref", "a"]
                     steps = [["subject", "a", kind] + init, ["sub", p, ["react", [idx, act]]],
                              ["hnext", "a", "1"], ["hnext", "a", "3"], ["hcomplete", "a"]]
                     out.append(case("%s-%d" % (prefix, i), steps)); i += 1
+                    if name == "none" and act == ["sub", ["ref", "a"]] and idx in ("2", "3"):
+                        # a subscriber joining from inside the ERROR callback: it must be handed the stored terminal
+                        steps = [["subject", "a", kind] + init, ["sub", p, ["react", [idx, act]]],
+                                 ["hnext", "a", "1"], ["hnext", "a", "3"], ["herror", "a", "6"]]
+                        out.append(case("%s-%d" % (prefix, i), steps)); i += 1
     for c in ("merge", "concat", "zip", "amb", "take_until", "skip_until", "sample", "switch_on_next", "combine_latest", "sequence_equal", "flat_map"):
         for act in (["hnext", "a", "2"], ["hnext", "b", "2"], ["hcomplete", "b"], "unsub", ["herror", "a", "6"]):
             g.tag = 0
